@@ -14,10 +14,11 @@ Local Open Scope Z_scope.
 Definition answers (name m : list Z) : Prop :=
   (exists r pe, match_path name m = MRet r pe) \/ (m <> [] /\ NameModel.prefixb m name = true).
 
-(* no path is answered by two ports of one table; at every level *)
+(* a path (NUL- and ':'-free) that one port of a table matches is not answered
+   by another port of that table; at every level *)
 Definition lookup_disjoint (l : list sport) : Prop :=
-  forall j j' q q' m, nth_error l j = Some q -> nth_error l j' = Some q' ->
-    answers (sname q) m -> answers (sname q') m -> j = j'.
+  forall j j' q q' m, nth_error l j = Some q -> nth_error l j' = Some q' -> addr_ok m ->
+    (exists r pe, match_path (sname q) m = MRet r pe) -> answers (sname q') m -> j = j'.
 
 Fixpoint lok (p : sport) : Prop :=
   match p with
@@ -86,19 +87,20 @@ End Loops.
 
 (* the ports around index j of a table do not answer what port j answers *)
 Lemma others_silent l j q m :
-  lookup_disjoint l -> nth_error l j = Some q -> answers (sname q) m ->
+  lookup_disjoint l -> nth_error l j = Some q -> addr_ok m ->
+  (exists r pe, match_path (sname q) m = MRet r pe) ->
   exists pre post, l = pre ++ q :: post /\ length pre = j /\
     Forall (fun q' => ~ answers (sname q') m) pre /\ Forall (fun q' => ~ answers (sname q') m) post.
 Proof.
-  intros Hd E Ha. destruct (nth_error_split l j E) as [pre [post [-> Hlen]]].
+  intros Hd E Haddr Ha. destruct (nth_error_split l j E) as [pre [post [-> Hlen]]].
   exists pre, post. split; [reflexivity|]. split; [exact Hlen|]. split; rewrite Forall_forall; intros q' Hin Ha'.
   - destruct (In_nth_error _ _ Hin) as [k Ek].
     assert (Hk : (k < length pre)%nat) by (apply nth_error_Some; congruence).
-    assert (k = j); [|lia].
-    eapply (Hd k j q' q m); [rewrite nth_error_app1 by exact Hk; exact Ek | exact E | exact Ha' | exact Ha].
+    assert (j = k); [|lia].
+    eapply (Hd j k q q' m); [exact E | rewrite nth_error_app1 by exact Hk; exact Ek | exact Haddr | exact Ha | exact Ha'].
   - destruct (In_nth_error _ _ Hin) as [k Ek].
-    assert (S (length pre + k) = j); [|lia].
-    eapply (Hd (S (length pre + k)) j q' q m); [| exact E | exact Ha' | exact Ha].
+    assert (j = S (length pre + k)); [|lia].
+    eapply (Hd j (S (length pre + k)) q q' m); [exact E | | exact Haddr | exact Ha | exact Ha'].
     rewrite nth_error_app2 by lia. replace (S (length pre + k) - length pre)%nat with (S k) by lia. exact Ek.
 Qed.
 
@@ -183,8 +185,8 @@ Proof.
     destruct (subtree_matches c ty x a' Hc Hx Haddr Hty) as [Hm _].
     destruct (rtosc_match_path_of _ _ _ _ Hm) as [r Hmp].
     set (q := SPort (comps_segs [c]) [] m' (Some l')) in *.
-    assert (Hans : answers (sname q) (x ++ a')) by (left; exists r, a'; exact Hmp).
-    destruct (others_silent l j q (x ++ a') Hd E Hans) as [pre [post [-> [Hlen [Hpre _]]]]].
+    assert (Hans : exists r pe, match_path (sname q) (x ++ a') = MRet r pe) by (exists r, a'; exact Hmp).
+    destruct (others_silent l j q (x ++ a') Hd E Haddr Hans) as [pre [post [-> [Hlen [Hpre _]]]]].
     rewrite map_app. cbn [map]. rewrite loop1_skip by exact Hpre. cbn [apropos_loop1].
     rewrite pname_render, psub_render. unfold q at 1 2 3. cbn [sname].
     change (render_name (comps_segs [c]) []) with (flatten (comps_segs [c]) ++ []).
@@ -202,8 +204,9 @@ Proof.
     pose proof (leaf_matches sg args ty a Hw Hls Hadm Ha) as Hm.
     destruct (rtosc_match_path_of _ _ _ _ Hm) as [r Hmp].
     set (q := SPort sg args m' None) in *.
-    assert (Hans : answers (sname q) a) by (left; exists r, []; exact Hmp).
-    destruct (others_silent l j q a Hd E Hans) as [pre [post [-> [Hlen [Hpre Hpost]]]]].
+    assert (Hans : exists r pe, match_path (sname q) a = MRet r pe) by (exists r, []; exact Hmp).
+    assert (Haddr : addr_ok a) by (eapply Forall_impl; [|exact Hch]; intros ch Hc'; apply Hc').
+    destruct (others_silent l j q a Hd E Haddr Hans) as [pre [post [-> [Hlen [Hpre Hpost]]]]].
     rewrite map_app. cbn [map]. rewrite loop1_skip by exact Hpre. cbn [apropos_loop1].
     rewrite pname_render, psub_render. unfold q at 1 2 3 4. cbn [sname].
     change (render_name sg args) with (flatten sg ++ args).
@@ -236,7 +239,7 @@ Qed.
 (* non-vacuity: the tree of DispatchWalk.ex_d *)
 Lemma singleton_lookup_disjoint q : lookup_disjoint [q].
 Proof.
-  intros j j' q1 q2 m E1 E2 _ _.
+  intros j j' q1 q2 m E1 E2 _ _ _.
   destruct j as [|j]; [|destruct j; discriminate]. destruct j' as [|j']; [reflexivity | destruct j'; discriminate].
 Qed.
 
